@@ -150,6 +150,17 @@ func runUnlikely(c Case, e *env) []Event {
 		vouchedP = `<div` + attrs + `>` + inner + `</div>`
 		vouchedN = `<div class="zqplain" id="zqvouched">` + inner + `</div>`
 	}
+	// (c) a block with an unlikely class deep inside a layout table: elements below a table are never pruned, at any depth
+	tabledP, tabledN := "", ""
+	if r.Intn(3) == 0 {
+		u := unlikelyWords[r.Intn(len(unlikelyWords))]
+		inner := chunks(g, 30)
+		cell := func(attrs string) string {
+			return `<table><tr><td><div><div><div` + attrs + `>` + inner + `</div></div></div></td><td>` + g.words(0) + `</td></tr></table>`
+		}
+		tabledP = cell(` class="` + u + `"`)
+		tabledN = cell(` class="zqplain"`)
+	}
 	blockOf := func(m mk, variant string) string {
 		body := m.body
 		if m.tag == "span" {
@@ -204,9 +215,9 @@ func runUnlikely(c Case, e *env) []Event {
 			}
 		}
 		// white space around the marked element: deleting it must not glue the neighbouring words
-		vouched := vouchedN
+		vouched := vouchedN + tabledN
 		if variant == "P" {
-			vouched = vouchedP
+			vouched = vouchedP + tabledP
 		}
 		story := `<div>` + run1 + " " + inline.String() + bare.String() + " " + run2 + half1 + nested.String() + `</div>` + vouched + between.String()
 		if half2 != "" {
